@@ -3,7 +3,8 @@
    configuration, every behaviour of the modelled third-party code (RSA, serde), every
    adapter result and latency, every inbox of client frames and every timing. *)
 From Passage Require Import Lib.Bytes Codec.Desc Gen.PacketsGen Conn.Types Conn.Prog Conn.Sem1 Conn.Sem2
-  Conn.Monitor Conn.MonitorProofs Conn.Monitor2Proofs Conn.Order Conn.OrderProofs Conn.Checks Conn.Walk_C02.
+  Conn.Monitor Conn.MonitorProofs Conn.Monitor2Proofs Conn.Order Conn.OrderProofs Conn.Checks Conn.Walk_C02
+  Crypto.Cookie Conn.TraceLib Conn.C06Corollaries Conn.C02Corollaries.
 
 Theorem C02_walk : forall o cfg, safe (step_with (chk_c02 o cfg)) m_init (listen o cfg).
 Proof. exact listen_c02_safe. Qed.
@@ -36,8 +37,149 @@ Theorem C02_every_event_checked_bytes : forall o cfg e segs pre ev post,
     (internal_at (q st) ev = true \/ exists q', delta (q st) ev = Some q' /\ (chk_c02 o cfg) st ev = true).
 Proof. intros o cfg e segs pre ev post H. eapply accepted_event_checked; [apply c02_accepts2 | exact H]. Qed.
 
+(* ======================================================================
+   In plain terms: corollaries of the accepted monitor (Conn/C02Corollaries.v), each for
+   every frame-level run (M1) and, suffix _bytes, every byte-level run (M2).
+   ====================================================================== *)
+
+(* what "a valid authentication cookie was presented" means (definition unfolded) *)
+Theorem C02_presented_cookie_valid_def : forall o cfg pre c,
+  presented_cookie_valid o cfg pre c <->
+  exists proto host port s pl m now i0 b0 i3 b3 k,
+    (* the handshake, first frame read, declares intent Transfer *)
+    nth_error (frames pre) 0 = Some (i0, b0)
+    /\ dec_of handshake_sb_HandshakePacket b0 = Some [VZ proto; VB host; VZ port; VZ 2]
+    (* a cookie secret is configured *)
+    /\ cf_secret cfg = Some s
+    (* the authentication cookie was requested and its answer, fourth frame read, has a payload *)
+    /\ auth_cookie_requested pre
+    /\ nth_error (frames pre) 3 = Some (i3, b3)
+    /\ dec_of login_sb_CookieResponsePacket b3 = Some [VB k; VOpt (Some (VB pl))]
+    (* whose tag is correct under the secret (C10_verify_spec) and whose body parses *)
+    /\ verify pl s = (true, m)
+    /\ o_parse_auth o m = JOk c
+    (* it names the connecting client's IP address *)
+    /\ sa_ip (ac_addr c) = sa_ip (cf_client cfg)
+    (* and is not older than the expiry at the clock read that followed (saturating add) *)
+    /\ latest now_read pre = Some now
+    /\ now <= Z.min (ac_ts c + cf_expiry cfg) (2 ^ 64 - 1).
+Proof. intros. reflexivity. Qed.
+
+(* [latest f pre = Some a]: the last event of the prefix that f recognises yields a *)
+Theorem C02_latest_def : forall A (f : tev -> option A) pre a,
+  latest f pre = Some a <->
+  exists pre1 e pre2, pre = pre1 ++ e :: pre2 /\ f e = Some a /\ forall x, In x pre2 -> f x = None.
+Proof. intros. apply latest_spec. Qed.
+
+(* the monitor's acceptance predicate is that notion, read on the trace so far *)
+Theorem C02_cookie_accepted_spec : forall o cfg pre c,
+  cookie_accepted o cfg (rev pre) = Some c <-> presented_cookie_valid o cfg pre c.
+Proof. exact cookie_accepted_rev. Qed.
+
+(* The Encryption Request tells the client to skip authentication (flag false) exactly when a valid
+   authentication cookie was presented; in every other case the flag is true *)
+Theorem C02_flag_false_iff : forall o cfg e ib pre vs post,
+  untime (run1 o cfg e ib) = pre ++ TSend login_cb_EncryptionRequestPacket vs :: post ->
+  exists a b t flag, vs = [a; b; t; VBool flag]
+    /\ (flag = false <-> exists c, presented_cookie_valid o cfg pre c).
+Proof. intros o cfg e ib. intros pre vs post H. exact (enc_request_flag o cfg _ (c02_accepts o cfg e ib) _ _ _ _ H eq_refl). Qed.
+Theorem C02_flag_false_iff_bytes : forall o cfg e segs pre vs post,
+  untime (run2 o cfg e segs) = pre ++ TSend login_cb_EncryptionRequestPacket vs :: post ->
+  exists a b t flag, vs = [a; b; t; VBool flag]
+    /\ (flag = false <-> exists c, presented_cookie_valid o cfg pre c).
+Proof. intros o cfg e segs. intros pre vs post H. exact (enc_request_flag o cfg _ (c02_accepts2 o cfg e segs) _ _ _ _ H eq_refl). Qed.
+
+(* Login Success carries the name and uuid of the authentication service's profile when the client was
+   told to authenticate, and exactly those inside the valid cookie when it was not *)
+Theorem C02_identity_from_cookie : forall o cfg e ib pre vs post,
+  untime (run1 o cfg e ib) = pre ++ TSend login_cb_LoginSuccessPacket vs :: post ->
+  exists u n x, vs = [VZ u; VB n; x] /\
+    ((latest enc_flag pre = Some true /\ exists ps, latest auth_result pre = Some (RProfile n u ps))
+     \/ (latest enc_flag pre = Some false
+         /\ exists c, presented_cookie_valid o cfg pre c /\ n = ac_name c /\ u = ac_uuid c)).
+Proof. intros o cfg e ib. intros pre vs post H. exact (login_success_identity o cfg _ (c02_accepts o cfg e ib) _ _ _ _ H eq_refl). Qed.
+Theorem C02_identity_from_cookie_bytes : forall o cfg e segs pre vs post,
+  untime (run2 o cfg e segs) = pre ++ TSend login_cb_LoginSuccessPacket vs :: post ->
+  exists u n x, vs = [VZ u; VB n; x] /\
+    ((latest enc_flag pre = Some true /\ exists ps, latest auth_result pre = Some (RProfile n u ps))
+     \/ (latest enc_flag pre = Some false
+         /\ exists c, presented_cookie_valid o cfg pre c /\ n = ac_name c /\ u = ac_uuid c)).
+Proof. intros o cfg e segs. intros pre vs post H. exact (login_success_identity o cfg _ (c02_accepts2 o cfg e segs) _ _ _ _ H eq_refl). Qed.
+
+(* Every packet of the configuration phase (Keep Alive, Store Cookie, Transfer, Disconnect) comes after
+   a Login Success that carried the service's verdict or the valid cookie's identity *)
+Theorem C02_no_grant_without_verdict : forall o cfg e ib pre p vs post,
+  untime (run1 o cfg e ib) = pre ++ TSend p vs :: post -> conf_pkt p = true ->
+  exists preL pL u n x rest,
+    pre = preL ++ TSend pL [VZ u; VB n; x] :: rest /\ is_pkt pL login_cb_LoginSuccessPacket = true /\
+    ((latest enc_flag preL = Some true /\ exists ps, latest auth_result preL = Some (RProfile n u ps))
+     \/ (latest enc_flag preL = Some false
+         /\ exists c, presented_cookie_valid o cfg preL c /\ n = ac_name c /\ u = ac_uuid c)).
+Proof. intros o cfg e ib. exact (grant_needs_identity o cfg _ (c02_accepts o cfg e ib)). Qed.
+Theorem C02_no_grant_without_verdict_bytes : forall o cfg e segs pre p vs post,
+  untime (run2 o cfg e segs) = pre ++ TSend p vs :: post -> conf_pkt p = true ->
+  exists preL pL u n x rest,
+    pre = preL ++ TSend pL [VZ u; VB n; x] :: rest /\ is_pkt pL login_cb_LoginSuccessPacket = true /\
+    ((latest enc_flag preL = Some true /\ exists ps, latest auth_result preL = Some (RProfile n u ps))
+     \/ (latest enc_flag preL = Some false
+         /\ exists c, presented_cookie_valid o cfg preL c /\ n = ac_name c /\ u = ac_uuid c)).
+Proof. intros o cfg e segs. exact (grant_needs_identity o cfg _ (c02_accepts2 o cfg e segs)). Qed.
+
+(* Read the other way: told to authenticate and no profile ever returned by the authentication
+   service - then no Login Success, Keep Alive, Store Cookie, Transfer or Disconnect is sent *)
+Theorem C02_no_verdict_no_grant : forall o cfg e ib,
+  (forall pE vsE, In (TSend pE vsE) (untime (run1 o cfg e ib)) -> is_pkt pE login_cb_EncryptionRequestPacket = true ->
+                  exists a b t, vsE = [a; b; t; VBool true]) ->
+  (forall c n u ps, ~ In (TRes c (RProfile n u ps)) (untime (run1 o cfg e ib))) ->
+  forall p vs, In (TSend p vs) (untime (run1 o cfg e ib)) ->
+    is_pkt p login_cb_LoginSuccessPacket = false /\ conf_pkt p = false.
+Proof. intros o cfg e ib. exact (no_verdict_no_grant o cfg _ (c02_accepts o cfg e ib)). Qed.
+Theorem C02_no_verdict_no_grant_bytes : forall o cfg e segs,
+  (forall pE vsE, In (TSend pE vsE) (untime (run2 o cfg e segs)) -> is_pkt pE login_cb_EncryptionRequestPacket = true ->
+                  exists a b t, vsE = [a; b; t; VBool true]) ->
+  (forall c n u ps, ~ In (TRes c (RProfile n u ps)) (untime (run2 o cfg e segs))) ->
+  forall p vs, In (TSend p vs) (untime (run2 o cfg e segs)) ->
+    is_pkt p login_cb_LoginSuccessPacket = false /\ conf_pkt p = false.
+Proof. intros o cfg e segs. exact (no_verdict_no_grant o cfg _ (c02_accepts2 o cfg e segs)). Qed.
+
+(* The Encryption Request is sent at most once ("the latest flag" is the flag) *)
+Theorem C02_enc_request_once : forall o cfg e ib a p1 vs1 b p2 vs2 c,
+  untime (run1 o cfg e ib) = a ++ TSend p1 vs1 :: b ++ TSend p2 vs2 :: c ->
+  is_pkt p1 login_cb_EncryptionRequestPacket = true -> is_pkt p2 login_cb_EncryptionRequestPacket = true -> False.
+Proof. intros o cfg e ib. exact (enc_request_once o cfg _ (c02_accepts o cfg e ib)). Qed.
+Theorem C02_enc_request_once_bytes : forall o cfg e segs a p1 vs1 b p2 vs2 c,
+  untime (run2 o cfg e segs) = a ++ TSend p1 vs1 :: b ++ TSend p2 vs2 :: c ->
+  is_pkt p1 login_cb_EncryptionRequestPacket = true -> is_pkt p2 login_cb_EncryptionRequestPacket = true -> False.
+Proof. intros o cfg e segs. exact (enc_request_once o cfg _ (c02_accepts2 o cfg e segs)). Qed.
+
+(* A presented cookie that cannot be used never ends the connection with a JSON error: right after the
+   answer to the authentication Cookie Request was read (and the clock, if it got that far) no such end *)
+Theorem C02_unusable_cookie_not_fatal : forall o cfg e ib pre0 vs b nows post,
+  untime (run1 o cfg e ib) = pre0 ++ TSend login_cb_CookieRequestPacket vs :: TRecv 4 b :: nows ++ TEnd (OErr KJson) :: post ->
+  key_of vs = auth_key_b -> (forall x, In x nows -> exists n, x = TNow n) -> False.
+Proof. intros o cfg e ib. intros pre0 vs b nows post H. exact (unusable_cookie_not_fatal o cfg _ (c02_accepts o cfg e ib) _ _ _ _ _ _ H eq_refl). Qed.
+Theorem C02_unusable_cookie_not_fatal_bytes : forall o cfg e segs pre0 vs b nows post,
+  untime (run2 o cfg e segs) = pre0 ++ TSend login_cb_CookieRequestPacket vs :: TRecv 4 b :: nows ++ TEnd (OErr KJson) :: post ->
+  key_of vs = auth_key_b -> (forall x, In x nows -> exists n, x = TNow n) -> False.
+Proof. intros o cfg e segs. intros pre0 vs b nows post H. exact (unusable_cookie_not_fatal o cfg _ (c02_accepts2 o cfg e segs) _ _ _ _ _ _ H eq_refl). Qed.
+
 Print Assumptions C02_walk.
 Print Assumptions C02_accepts.
 Print Assumptions C02_every_event_checked.
 Print Assumptions C02_accepts_bytes.
 Print Assumptions C02_every_event_checked_bytes.
+Print Assumptions C02_presented_cookie_valid_def.
+Print Assumptions C02_latest_def.
+Print Assumptions C02_cookie_accepted_spec.
+Print Assumptions C02_flag_false_iff.
+Print Assumptions C02_flag_false_iff_bytes.
+Print Assumptions C02_identity_from_cookie.
+Print Assumptions C02_identity_from_cookie_bytes.
+Print Assumptions C02_no_grant_without_verdict.
+Print Assumptions C02_no_grant_without_verdict_bytes.
+Print Assumptions C02_no_verdict_no_grant.
+Print Assumptions C02_no_verdict_no_grant_bytes.
+Print Assumptions C02_enc_request_once.
+Print Assumptions C02_enc_request_once_bytes.
+Print Assumptions C02_unusable_cookie_not_fatal.
+Print Assumptions C02_unusable_cookie_not_fatal_bytes.
